@@ -37,13 +37,13 @@ def lex(line):
 
 
 class _Fid:
-    """the file object of a SwanSpecFile with every readline recorded (index of the body line returned, 0 at end of file)."""
+    """the file object of a SwanSpecFile with every line it hands out recorded (index of the body line, 0 at end of file), whichever way
+    the reader asks for lines (readline, iteration, readlines, read): a reader written differently must still work under the recorder."""
 
     def __init__(self, fid, rec):
         self._fid, self._rec, self.n = fid, rec, 0
 
-    def readline(self, *a):
-        line = self._fid.readline(*a)
+    def _log(self, line):
         if line:
             self.n += 1
             self._rec["last_rl"].append(self.n)
@@ -51,6 +51,31 @@ class _Fid:
         else:
             self._rec["last_rl"].append(0)
         return line
+
+    def readline(self, *a):
+        return self._log(self._fid.readline(*a))
+
+    def __iter__(self):
+        return self
+
+    def __next__(self):
+        line = self._fid.readline()
+        if not line:
+            self._log(line)
+            raise StopIteration
+        return self._log(line)
+
+    def readlines(self, *a):
+        out = self._fid.readlines(*a)
+        for ln in out:
+            self._log(ln)
+        return out
+
+    def read(self, *a):
+        txt = self._fid.read(*a)
+        for ln in txt.splitlines(True):
+            self._log(ln)
+        return txt
 
     def __getattr__(self, k):
         return getattr(self._fid, k)
@@ -80,7 +105,7 @@ class Recorder:
             if writing or not obj.fid:
                 return
             rec = {"events": [], "lines": [], "last_rl": [], "path": str(filename), "nloc": len(obj.x), "nf": len(obj.freqs),
-                   "timed": 1 if isinstance(obj.times, list) else 0, "nrec": 0, "buf0": obj.buf}
+                   "timed": 1 if isinstance(obj.times, list) else 0, "nrec": 0, "buf0": obj.buf, "returned": []}
             obj.fid = _Fid(obj.fid, rec)
             rec_of[id(obj)] = rec
             obj._verif_rec = rec
@@ -103,6 +128,7 @@ class Recorder:
             rec["events"].append({"ev": "exit", "n": -1 if out is None else len(out)})
             if out:
                 rec["nrec"] += 1
+                rec["returned"].append([kind_of(b) for b in out])
             return out
 
         def _flush_direct(rec):
@@ -150,6 +176,35 @@ def body_lines(path, nlines_seen):
         return None
     start = q[0] + 1 + 1 + 1 + 1          # QUANT, number of quantities, name, unit, exception value
     return allines[start + 1:]
+
+
+def parse_body(kinds, timed, nloc, nf):
+    """the records of a body by the FORMAT (independent of how the reader walks it): list of lists of N / Z / F, None if malformed."""
+    recs, k, n = [], 0, len(kinds)
+    while k < n:
+        if timed:
+            if kinds[k] != "time":
+                return None
+            k += 1
+        blocks = []
+        for _ in range(nloc):
+            if k >= n:
+                return None
+            if kinds[k] == "NODATA":
+                blocks.append("N")
+                k += 1
+            elif kinds[k] == "ZERO":
+                blocks.append("Z")
+                k += 1
+            elif kinds[k] == "FACTOR" and k + 1 + nf < n + 0 + 1 and all(x == "num" for x in kinds[k + 1:k + 2 + nf]) and len(kinds[k + 1:k + 2 + nf]) == nf + 1:
+                blocks.append("F")
+                k += 2 + nf
+            else:
+                return None
+        recs.append(blocks)
+        if not timed:
+            break
+    return recs if k == n else None
 
 
 def to_ndjson(traces, path):
@@ -324,17 +379,32 @@ def stage(ctx, tmp):
     if bad and not out["corrupted_copy_rejected"]:
         from harness.core import MachineryError
         raise MachineryError("SwanFileTrace accepted a read whose line index was corrupted (vacuous trace specification?)")
-    for r in rejected:
-        if r["tid"] == bad_tid:
-            continue
-        t = allt[r["tid"]]
-        ev = t["events"][r["line"] - 2 - sum(len(x["events"]) + 1 for x in allt[:r["tid"]])] if True else None
-        ctx.violation({"where": "SwanFileTrace", "clause": r["clause"], "format": "swan"},
-                      "recorded read of %s rejected by SwanFileTrace: %s" % (os.path.basename(t["path"]), r["clause"]),
-                      {"event": ev, "timed": t["timed"], "nloc": t["nloc"], "nf": t["nf"], "body_kinds": [lex(x) for x in t["body"]][:40]})
+    # Verdicts.  What the reader RETURNED for every recorded read is compared with the records of the body parsed by the format
+    # (independently of how the reader walks the lines): a difference is a violation.  A read whose results are right but whose
+    # event stream is not a behaviour of the operational model is a reader written differently from the model, not a defect: it is
+    # listed in the evidence notes (clause by clause) and raises no alarm.
+    rej_of = {r["tid"]: r for r in rejected if r["tid"] != bad_tid}
+    departures = {}
     for t in traces:
         ctx.case(("swanfile-trace", os.path.basename(t["path"]), len(t["events"])), True)
-        if not any(r["tid"] == t["tid"] for r in rejected):
+        kinds = [lex(x) for x in t["body"]]
+        want = parse_body(kinds, t["timed"], t["nloc"], t["nf"])
+        r = rej_of.get(t["tid"])
+        if want is None:
+            out["bodies_not_well_formed"] = out.get("bodies_not_well_formed", 0) + 1      # nothing to compare with: not judged
+            continue
+        got = [r_ for r_ in t["returned"]]
+        if t["nloc"] == 0:
+            continue
+        if got != want:
+            ctx.violation({"where": "SwanFileTrace", "clause": "results" + (":" + r["clause"] if r else ""), "format": "swan"},
+                          "reading %s: the reader returned records %s, the file holds %s%s" %
+                          (os.path.basename(t["path"]), got[:4], want[:4], (" (first event outside the model: %s)" % r["clause"]) if r else ""),
+                          {"timed": t["timed"], "nloc": t["nloc"], "nf": t["nf"], "body_kinds": kinds[:40]})
+        else:
             ctx.replayed()
+            if r:
+                departures[r["clause"]] = departures.get(r["clause"], 0) + 1
+    out["reads_outside_the_operational_model_with_right_results"] = departures
     ctx.note("extension_swanfile", out)
     return out
